@@ -437,6 +437,16 @@ class Runtime:
                         nav = t[2]
                         self.mops.append([5])
                         break
+            if nav is None and q.get("tree_of_kept"):
+                # the record read through the Location tree of a navigator kept from the history (a layout that does not depend on
+                # the record's bytes is the same tree for every record): NDNav(unpacker, location, instance) is public API, and
+                # what such a tree answers for THIS record must not depend on the records it served before
+                for t in self.navs:
+                    if t[0] == q["text"]:
+                        self.mops.append([5])
+                        ok, made = self.call(lambda: self.si.NDNav(t[3], t[2].location, self.si.BytesInstance(bytes(q["record"]))))
+                        nav = made if ok else made[0]
+                        break
             if nav is None:
                 nav, _unp = self.make_nav(q["text"], q["record"], q.get("unp", "shared") == "shared")
             if nav is None:
